@@ -7,7 +7,7 @@
 //! 2 GiB, and the parent watches for progress, so `crash` / `hang` / `alloc` are observables too.
 //!
 //! Requests compared with the Lean model (lean/RtenVerif/Driver/C05.lean):
-//!   onnx <dtype> <dims|-> raw=<n|-> ext=<none|loc|meta|fail|ref:len:off:buflen> f=<n> i32=<n> i64=<n> f64=<n>
+//!   onnx <dtype> <dims|-> raw=<n|-> ext=<none|loc|meta|fail|<mem|mmap|file>:len:off:buflen>  (loader = entry point used) f=<n> i32=<n> i64=<n> f64=<n>
 //!   rten <rel|ovf> inline <ty> <dims|-> n=<n>
 //!   rten <rel|ovf> stored <ty> <dims|-> tdo=<n|-> off=<n> slen=<n>
 //!   hdr  <rel|ovf> <version> <model_offset> <model_len> <tensor_data_offset> <file_len>
@@ -131,6 +131,9 @@ struct Case {
     nontrivial: bool,
     /// also exercise `load_file` / `load_mmap`
     via_file: bool,
+    /// entry point of the reported load: 0 = `load` (MemLoader), 1 = `load_file` (FileLoader),
+    /// 2 = `load_mmap` (MmapLoader)
+    loader: u8,
 }
 
 fn overflow_checks_on() -> bool {
@@ -475,6 +478,8 @@ fn onnx_model(tps: &[TP], as_const_op: bool) -> Vec<u8> {
     o
 }
 
+const LOADERS: [&str; 3] = ["mem", "file", "mmap"];
+
 const ONNX_DTYPES: [(&str, i64, u64); 8] = [
     ("float", 1, 4),
     ("int32", 6, 4),
@@ -488,7 +493,7 @@ const ONNX_DTYPES: [(&str, i64, u64); 8] = [
 
 /// One adversarial TensorProto named `name` (external data, if any, in `<extfile>`):
 /// (tensor, external buffers, request fragment `<dtype> <dims> raw=… ext=… f=… i32=… i64=… f64=…`, buckets).
-fn gen_onnx_tensor(rng: &mut Rng, k: usize, name: &str, extfile: &str) -> (TP, Vec<(String, Vec<u8>)>, String, Vec<String>) {
+fn gen_onnx_tensor(rng: &mut Rng, k: usize, name: &str, extfile: &str, kind: &str) -> (TP, Vec<(String, Vec<u8>)>, String, Vec<String>) {
     let mut buckets = vec![];
     // data type
     let (dt_name, dt_code, size): (&str, Option<i64>, u64) = match k % 11 {
@@ -533,7 +538,7 @@ fn gen_onnx_tensor(rng: &mut Rng, k: usize, name: &str, extfile: &str) -> (TP, V
                 tp.data_location = Some(1);
                 tp.ext_kv = vec![("location".into(), extfile.into()), ("offset".into(), "0".into()), ("length".into(), "4".into())];
                 ext_bufs.push((extfile.to_string(), vec![1u8; 16]));
-                ext_s = "ref:4:0:16".into();
+                ext_s = format!("{kind}:4:0:16");
             }
         }
         "typed" => {
@@ -552,7 +557,7 @@ fn gen_onnx_tensor(rng: &mut Rng, k: usize, name: &str, extfile: &str) -> (TP, V
         "ext" => {
             let off = *rng.pick(&[0u64, 0, 0, 4, 8, 1, 2, 3, 6, 16]);
             let len = n * size + slack(rng);
-            let tail = rng.below(5);
+            let tail = if off + len == 0 { 1 + rng.below(4) } else { rng.below(5) };
             let buf: Vec<u8> = (0..off + len + tail).map(|i| (i * 3 + 2) as u8).collect();
             tp.data_location = Some(1);
             tp.ext_kv = vec![
@@ -563,7 +568,7 @@ fn gen_onnx_tensor(rng: &mut Rng, k: usize, name: &str, extfile: &str) -> (TP, V
             if rng.chance(1, 5) {
                 tp.ext_kv.push(("checksum".into(), "abc".into()));
             }
-            ext_s = format!("ref:{len}:{off}:{}", off + len + tail);
+            ext_s = format!("{kind}:{len}:{off}:{}", off + len + tail);
             ext_bufs.push((extfile.to_string(), buf));
             if rng.chance(1, 4) {
                 // typed data present as well: external data wins
@@ -577,7 +582,7 @@ fn gen_onnx_tensor(rng: &mut Rng, k: usize, name: &str, extfile: &str) -> (TP, V
                     // buffer too short
                     tp.ext_kv = vec![("location".into(), extfile.into()), ("offset".into(), "8".into()), ("length".into(), "64".into())];
                     ext_bufs.push((extfile.to_string(), vec![0u8; 16]));
-                    ext_s = "ref:64:8:16".into();
+                    ext_s = format!("{kind}:64:8:16");
                 }
                 1 => {
                     // unknown file
@@ -595,7 +600,7 @@ fn gen_onnx_tensor(rng: &mut Rng, k: usize, name: &str, extfile: &str) -> (TP, V
                 _ => {
                     tp.ext_kv = vec![("location".into(), extfile.into()), ("offset".into(), "18446744073709551615".into()), ("length".into(), "18446744073709551615".into())];
                     ext_bufs.push((extfile.to_string(), vec![0u8; 16]));
-                    ext_s = "ref:18446744073709551615:18446744073709551615:16".into();
+                    ext_s = format!("{kind}:18446744073709551615:18446744073709551615:16");
                 }
             }
         }
@@ -621,7 +626,9 @@ fn gen_onnx_tensor(rng: &mut Rng, k: usize, name: &str, extfile: &str) -> (TP, V
 }
 
 fn case_onnx(rng: &mut Rng, k: usize) -> Case {
-    let (tp, ext_bufs, frag, mut buckets) = gen_onnx_tensor(rng, k, "c", "w.data");
+    let loader = [0u8, 0, 1, 2][rng.usize_below(4)];
+    let (tp, ext_bufs, frag, mut buckets) = gen_onnx_tensor(rng, k, "c", "w.data", LOADERS[loader as usize]);
+    buckets.push(format!("onnx:loader:{}", LOADERS[loader as usize]));
     let as_const_op = k % 7 == 6;
     buckets.push(format!("onnx:as:{}", if as_const_op { "constant-op" } else { "initializer" }));
     // a second, valid initializer so the rest of the model is non-trivial
@@ -635,6 +642,7 @@ fn case_onnx(rng: &mut Rng, k: usize) -> Case {
         buckets,
         nontrivial: true,
         via_file: k % 16 == 3,
+        loader,
     }
 }
 
@@ -644,11 +652,12 @@ fn case_onnx_all(rng: &mut Rng, k: usize) -> Case {
     let mut tps = vec![];
     let mut exts = vec![];
     let mut frags = vec![];
-    let mut buckets = vec![format!("onnxall:{n}")];
+    let loader = [0u8, 0, 1, 2][rng.usize_below(4)];
+    let mut buckets = vec![format!("onnxall:{n}"), format!("onnx:loader:{}", LOADERS[loader as usize])];
     for i in 0..n {
         // bias towards acceptable tensors so that later ones are reached
         let kk = if rng.chance(2, 3) { rng.usize_below(8) } else { k + i };
-        let (mut tp, e, frag, _) = gen_onnx_tensor(rng, kk, &format!("c{i}"), &format!("w{i}.data"));
+        let (mut tp, e, frag, _) = gen_onnx_tensor(rng, kk, &format!("c{i}"), &format!("w{i}.data"), LOADERS[loader as usize]);
         if i == 0 {
             tp.name = "c".into();
         }
@@ -666,13 +675,15 @@ fn case_onnx_all(rng: &mut Rng, k: usize) -> Case {
         buckets,
         nontrivial: true,
         via_file: false,
+        loader,
     }
 }
 
 /// `Constant` nodes with every flavour of value attribute (also several / none / unsupported).
 fn case_constop(rng: &mut Rng, k: usize) -> Case {
     let kk = rng.usize_below(11);
-    let (tp, ext_bufs, frag, _) = gen_onnx_tensor(rng, kk, "ignored", "w.data");
+    let loader = [0u8, 0, 1, 2][rng.usize_below(4)];
+    let (tp, ext_bufs, frag, _) = gen_onnx_tensor(rng, kk, "ignored", "w.data", LOADERS[loader as usize]);
     let nattrs = match rng.below(8) {
         0 => 0,
         1 | 2 => 2,
@@ -772,6 +783,7 @@ fn case_constop(rng: &mut Rng, k: usize) -> Case {
         buckets: vec![format!("constop:attrs:{nattrs}"), format!("constop:first:{}", toks.first().map(|t| t.split(':').next().unwrap().to_string()).unwrap_or("none".into()))],
         nontrivial: true,
         via_file: k % 16 == 9,
+        loader,
     }
 }
 
@@ -806,6 +818,7 @@ fn case_attrconst(rng: &mut Rng, k: usize) -> Case {
         buckets: vec![format!("attrconst:{}", ["clip.min", "topk.k", "unsqueeze.axes", "upsample.scales"][k % 4])],
         nontrivial: true,
         via_file: false,
+        loader: 0,
     }
 }
 
@@ -962,6 +975,7 @@ fn case_rten_inline(rng: &mut Rng, k: usize) -> Case {
         buckets: vec![format!("rten:inline:{ty_name}"), format!("rten:dims:{dkind}"), format!("rten:{}", if v2 { "v2" } else { "v1" })],
         nontrivial: true,
         via_file: k % 16 == 5,
+        loader: 0,
     }
 }
 
@@ -1021,6 +1035,7 @@ fn case_rten_stored(rng: &mut Rng, k: usize) -> Case {
         ],
         nontrivial: true,
         via_file: k % 16 == 7,
+        loader: 0,
     }
 }
 
@@ -1067,6 +1082,7 @@ fn case_rten_all(rng: &mut Rng, k: usize) -> Case {
         buckets: vec!["rtenall".into()],
         nontrivial: true,
         via_file: false,
+        loader: 0,
     }
 }
 
@@ -1285,6 +1301,7 @@ fn case_fuzz(rng: &mut Rng, k: usize) -> Case {
         buckets: vec![format!("fuzz:{base}"), format!("fuzz:mut:{}", muts.first().copied().unwrap_or("none"))],
         nontrivial: true,
         via_file: k % 8 == 1,
+        loader: 0,
     }
 }
 
@@ -1310,6 +1327,7 @@ fn case_bad_ids(rng: &mut Rng, k: usize) -> Case {
         buckets: vec![format!("ids:{what}")],
         nontrivial: true,
         via_file: false,
+        loader: 0,
     }
 }
 
@@ -1339,6 +1357,7 @@ fn case_header(rng: &mut Rng, k: usize) -> Case {
         buckets: vec!["hdr".into()],
         nontrivial: true,
         via_file: k % 8 == 2,
+        loader: 0,
     }
 }
 
@@ -1393,6 +1412,7 @@ fn case_probe(_rng: &mut Rng, k: usize) -> Case {
         buckets: vec!["probe".into()],
         nontrivial: true,
         via_file: false,
+        loader: 0,
     }
 }
 
@@ -1490,6 +1510,7 @@ fn case_nest(_rng: &mut Rng, k: usize) -> Case {
         buckets: vec![format!("nest:{kind}"), format!("nest:depth:{}", if depth <= 100 { "<=100" } else if depth <= 3000 { "101..3000" } else { ">3000" })],
         nontrivial: true,
         via_file: true,
+        loader: 0,
     }
 }
 
@@ -1666,7 +1687,21 @@ fn run_case(case: &Case, idx: usize, tmp: &str) -> Res {
         opts.external_data(p, b.clone());
     }
     let bytes = case.bytes.clone();
-    let r = catch(|| opts.load(bytes));
+    let r = if case.loader == 0 {
+        catch(|| opts.load(bytes))
+    } else {
+        // the file based entry points, with the external data files next to the model
+        let dir = format!("{tmp}/c{idx}");
+        let _ = std::fs::create_dir_all(&dir);
+        let path = format!("{dir}/m.{}", if case.fmt == Fmt::Onnx { "onnx" } else { "rten" });
+        let _ = std::fs::write(&path, &case.bytes);
+        for (p, b) in &case.ext {
+            let _ = std::fs::write(format!("{dir}/{p}"), b);
+        }
+        let r = if case.loader == 1 { catch(|| opts.load_file(&path)) } else { catch(|| unsafe { opts.load_mmap(&path) }) };
+        let _ = std::fs::remove_dir_all(&dir);
+        r
+    };
     let mut class;
     let mut ans = match &r {
         Ok(Ok(model)) => {
